@@ -1,7 +1,139 @@
-(* Props_C13.v — property C13: theorem statements only. *)
-From Verif Require Import Base C13_Model C13_Proofs.
+(* Props_C13.v — property C13 (hooks run once per record, in documented order, in the operation's
+   transaction): ONLY theorem statements, each closed by [exact] of a lemma of C13_Proofs*.v.
+   All are about [run], the function C13_Check.check_case evaluates on what the real gorm just did. *)
+From Verif Require Import Base C13_Model C13_Check C13_Proofs C13_Proofs2 C13_Proofs3 C13_Proofs4 C13_Proofs5 C13_Proofs6.
 Open Scope Z_scope.
 
-Theorem c13_skip_phase : forall c p s, c_skip c = true -> hooks_phase c p s = s.
-Proof. exact hooks_phase_skip. Qed.
-Print Assumptions c13_skip_phase.
+(* The hook log of every operation (Create, Save, Update(s), UpdateColumn(s), Delete, Find, First), for
+   every model type (hook presence x receiver kind), every argument shape reachable through a pointer,
+   every number of records, every association values, every set of failing invocations, every
+   SetColumn set, every transaction mode: the phases of the operation's schedule [op_sched] in
+   registration order, each phase firing every applicable hook of every record once, record by record;
+   a phase containing a failing invocation is completed and nothing after it runs. *)
+Theorem c13_log : forall o, op_ok o ->
+  hooks_of (s_tr (run o)) = sched_log (op_sched o) 0 (o_fails o).
+Proof. exact run_log. Qed.
+Print Assumptions c13_log.
+
+(* no invocation fails: each applicable hook exactly once per in-memory record, documented order *)
+Theorem c13_log_expected : forall o, op_ok o ->
+  no_fail 0 (len (expected_log o)) (o_fails o) = true ->
+  hooks_of (s_tr (run o)) = expected_log o.
+Proof. exact run_log_nofail. Qed.
+Print Assumptions c13_log_expected.
+
+(* failure in phase p: the log is a whole number of phases — p is completed (the remaining records
+   of p still fire), no event of a later phase *)
+Theorem c13_abort_phases : forall o, op_ok o ->
+  hooks_of (s_tr (run o)) = concat (firstn (cut (op_sched o) 0 (o_fails o)) (op_sched o)).
+Proof. exact run_log_cut. Qed.
+Print Assumptions c13_abort_phases.
+
+(* the error is returned exactly when one of the invocations that happened was made to fail *)
+Theorem c13_abort_error : forall o, op_ok o -> is_query o = false ->
+  is_nil (s_err (run o)) = no_fail 0 (len (hooks_of (s_tr (run o)))) (o_fails o).
+Proof. exact run_error. Qed.
+Print Assumptions c13_abort_error.
+
+(* ... and everything the operation did is rolled back (default or explicit transaction) *)
+Theorem c13_abort_rollback : forall o, op_ok o -> must_tx o = true ->
+  s_err (run o) <> [] -> s_tbl (run o) = o_seed o.
+Proof. exact run_rollback. Qed.
+Print Assumptions c13_abort_rollback.
+
+(* SkipHooks sessions and UpdateColumn(s) run no hook — for every operation, shape and type, also
+   outside [op_ok], including the hooks of association values *)
+Theorem c13_skip : forall o,
+  o_skip o = true \/ o_kind o = OUpdateColumn -> hooks_of (s_tr (run o)) = [].
+Proof. exact run_skip. Qed.
+Print Assumptions c13_skip.
+
+(* every hook invocation (and every statement) carries the transaction that is open at that moment,
+   and write operations under the default / an explicit transaction are never outside one *)
+Theorem c13_same_tx : forall o, op_ok o -> tx_ok (must_tx o) 0 0 (s_tr (run o)) = true.
+Proof. exact run_tx_ok. Qed.
+Print Assumptions c13_same_tx.
+
+(* values set by a before-hook are the values stored.  Local statements about the three functions
+   involved (SetColumn on the model itself, the Create statement, the update payload map): *)
+Theorem c13_setcolumn_record : forall c i v s r,
+  c_dest c = DSelf -> sh_cont (c_shape c) <> CStruct -> nth_error (s_recs s) i = Some r ->
+  nth_error (s_recs (set_column c i v s)) i = Some (mk_rec (m_id r) (m_tag r) v (m_nil r))
+  /\ (forall j, j <> i -> nth_error (s_recs (set_column c i v s)) j = nth_error (s_recs s) j)
+  /\ s_err (set_column c i v s) = s_err s.
+Proof. exact set_column_self. Qed.
+Print Assumptions c13_setcolumn_record.
+
+Theorem c13_create_stores_current_values : forall c s r,
+  s_err s = [] -> existsb m_nil (s_recs s) = false -> NoDup (map m_tag (s_recs s)) -> In r (s_recs s) ->
+  In (c_table c, m_tag r, m_val r) (s_tbl (stmt_create c s)).
+Proof. exact stmt_create_stores. Qed.
+Print Assumptions c13_create_stores_current_values.
+
+(* update payload given as a map: the hook's value wins when the hook names the column by its
+   database name, or by its field name while the payload does not use the database name *)
+Theorem c13_update_map_partial : forall v m,
+  map_val (map_set KDb v m) = Some v
+  /\ (map_get KDb m = None -> map_val (map_set KField v m) = Some v).
+Proof. intros v m. split; [apply map_val_set_db | apply map_val_set_field]. Qed.
+Print Assumptions c13_update_map_partial.
+
+(* ---- refuted at full strength (both replayed on the real gorm: corpus/C13/kf_*.json) ---- *)
+
+(* hooks of one phase declared partly on T and partly on *T: for a single struct the pointer-receiver
+   hooks never fire although everything is addressable — [uniform_all] in [op_ok] is the exact
+   missing hypothesis *)
+Definition t8 := mk_ty 8 RVal RPtr RPtr RVal RPtr RPtr RPtr RPtr RPtr.
+Definition leaf_ty i := mk_ty i RPtr RPtr RPtr RPtr RPtr RPtr RPtr RPtr RPtr.
+Definition w_mixed : op :=
+  mk_op OCreate t8 (mk_shape CStruct true false) [mk_rec 0 101 7 false]
+        (no_assocs (leaf_ty 12, leaf_ty 13, leaf_ty 14)) false TxDefault [] [] KField 0 PVMapDb 0 [].
+
+Theorem c13_log_refuted : exists o,
+  goodk (o_shape o) (rkeys (o_recs o)) /\ o_fails o = [] /\ hooks_of (s_tr (run o)) <> expected_log o.
+Proof.
+  exists w_mixed. split; [|split; [reflexivity|]].
+  - unfold goodk, wf_shape. cbn. repeat split; try reflexivity; [eexists; reflexivity | discriminate].
+  - vm_compute. discriminate.
+Qed.
+Print Assumptions c13_log_refuted.
+
+(* Update with a map keyed by the column name + a BeforeUpdate hook calling SetColumn with the field
+   name: the caller's value is stored, not the hook's *)
+Definition t1 := mk_ty 1 RPtr RPtr RPtr RPtr RPtr RPtr RPtr RPtr RPtr.
+Definition w_setcol : op :=
+  mk_op OUpdate t1 (mk_shape CStruct true false) [mk_rec 1 1 10 false]
+        (no_assocs (leaf_ty 12, leaf_ty 13, leaf_ty 14)) false TxDefault [] [1] KField 77 PVMapDb 0 [(TRecs, 1, 10)].
+
+Theorem c13_values_refuted : exists o,
+  op_ok o /\ s_err (run o) = [] /\ o_sets o = [1]
+  /\ nth_error (hooks_of (s_tr (run o))) 1 = Some (BeforeUpdate, 1, 1)
+  /\ In (TRecs, 1, 77) (s_tbl (run o)) /\ ~ In (TRecs, 1, 1001) (s_tbl (run o)).
+Proof.
+  exists w_setcol. split.
+  - split.
+    + intro p. unfold uniform_phase. cbn. left. intros h Hin. destruct p; cbn in Hin; intuition (subst; cbn; discriminate).
+    + cbn. split.
+      * unfold goodk, wf_shape. cbn. repeat split; try reflexivity; [eexists; reflexivity | discriminate].
+      * unfold assocs_ok, assoc_vals_ok. cbn. repeat split; try reflexivity; try lia;
+          unfold uniform_phase; cbn; left; intros h Hin; cbn in Hin; intuition (subst; cbn; discriminate).
+  - vm_compute. repeat split; auto. intros [H|H]; [discriminate|contradiction].
+Qed.
+Print Assumptions c13_values_refuted.
+
+(* ---- non-vacuity: an operation with associations, two records, a failing invocation, in [op_ok] ---- *)
+Definition w_ok : op :=
+  mk_op OCreate t1 (mk_shape CSlice true false) [mk_rec 0 101 1 false; mk_rec 0 102 2 false]
+        (mk_assocs (leaf_ty 12, leaf_ty 13, leaf_ty 14) [mk_rec 0 301 3 false] [mk_rec 0 201 1 false; mk_rec 0 202 2 false] [])
+        false TxDefault [9] [0] KField 0 PVMapDb 0 [].
+Example c13_ok_instance : op_ok w_ok /\ must_tx w_ok = true
+  /\ length (hooks_of (s_tr (run w_ok))) = 12%nat /\ s_err (run w_ok) = [EInj 9] /\ s_tbl (run w_ok) = [].
+Proof.
+  split.
+  - split.
+    + intro p. exact I.
+    + cbn. split.
+      * unfold goodk, wf_shape. cbn. repeat split; try reflexivity. discriminate.
+      * unfold assocs_ok, assoc_vals_ok. cbn. repeat split; try reflexivity; try lia; try discriminate.
+  - vm_compute. repeat split.
+Qed.
